@@ -42,7 +42,7 @@ Long == 30000     \* ms without any notification, whatever the poller did
 
 O0 == [kind |-> "none", skip |-> TRUE, disk |-> "", view |-> Unknown, lastScan |-> NoVal,
        pre |-> NoVal, since |-> {}, chg |-> FALSE, pb |-> FALSE, tDone |-> 0 - 1, tChange |-> 0,
-       lastSig |-> FALSE, owes |-> TRUE, dr |-> <<>>,
+       lastSig |-> FALSE, owes |-> TRUE, inWin |-> FALSE, dr |-> <<>>,
        nNoStale |-> 0, nNoticed |-> 0, nObl |-> 0, drift |-> 0, msteps |-> 0, cases |-> 0, aborted |-> 0]
 
 Max(a, b) == IF a > b THEN a ELSE b
@@ -70,9 +70,14 @@ WellFormed(r) ==
        [] OTHER -> FALSE
 
 (* ------------------------ (1) observations ---------------------------- *)
+\* the walker saw the disk as d: a change resets the polling-iteration bookkeeping
 ChangeTo(x, d, t) == IF d # x.disk
-                     THEN [x EXCEPT !.disk = d, !.since = x.since \cup {d}, !.pb = FALSE, !.tDone = 0 - 1, !.tChange = t]
+                     THEN [x EXCEPT !.disk = d, !.pb = FALSE, !.tDone = 0 - 1, !.tChange = t]
                      ELSE x
+\* ... and d is a state the disk has been in since the current transition began to write.  Recorded
+\* unconditionally (a write and its reversal may both have happened since the previous observation), except for
+\* edits recorded before the transition reached its relock gate: those may precede its write.
+Since(x, d) == [x EXCEPT !.since = x.since \cup {d}]
 TransitionChanged(r) == r.err = "" /\ r.res # "none" /\ r.res # r.old
 ScanOK(r) == r.err = "" /\ ~r.hang
 
@@ -85,12 +90,13 @@ Obs(x, r) ==
          IF x.tDone < 0 THEN [x EXCEPT !.pb = TRUE] ELSE x
     [] r.ev = "Gate" /\ r.point = "poll-before-lock" /\ r.phase = "arrive" ->
          IF x.pb /\ x.tDone < 0 THEN [x EXCEPT !.tDone = r.t] ELSE x
-    [] r.ev = "Gate" /\ r.point = "transition-before-relock" -> ChangeTo(x, r.disk, r.t)
-    [] r.ev = "Edit" -> ChangeTo(x, r.disk, r.t)
+    [] r.ev = "Gate" /\ r.point = "transition-before-relock" ->
+         [Since(ChangeTo(x, r.disk, r.t), r.disk) EXCEPT !.inWin = FALSE]
+    [] r.ev = "Edit" -> IF x.inWin THEN ChangeTo(x, r.disk, r.t) ELSE Since(ChangeTo(x, r.disk, r.t), r.disk)
     \* since: the states the disk takes from here on (the walker at the relock gate, later edits, the walker at return)
-    [] r.ev = "TransitionCall" -> [x EXCEPT !.pre = x.lastScan, !.since = {}, !.chg = FALSE]
+    [] r.ev = "TransitionCall" -> [x EXCEPT !.pre = x.lastScan, !.since = {}, !.chg = FALSE, !.inWin = TRUE]
     [] r.ev = "Transition" ->
-         LET y == ChangeTo(x, r.disk, r.t1) IN
+         LET y == [Since(ChangeTo(x, r.disk, r.t1), r.disk) EXCEPT !.inWin = FALSE] IN
          IF TransitionChanged(r) THEN [y EXCEPT !.view = Unknown, !.chg = TRUE] ELSE y
     [] r.ev = "Scan" /\ ScanOK(r) ->
          [x EXCEPT !.view = r.snap, !.lastScan = r.snap, !.chg = FALSE, !.owes = FALSE,
@@ -101,9 +107,11 @@ Obs(x, r) ==
     [] r.ev = "Abort" -> [x EXCEPT !.skip = TRUE, !.aborted = x.aborted + 1]
     [] OTHER -> x
 
-\* a polling interval has fully elapsed for the change the controller does not know about (a controller that has
-\* not scanned since its last notification - or never - is owed nothing)
+\* a polling interval has fully elapsed for the change the controller does not know about, and the Poll itself has
+\* been waiting long enough for a pending signal to be delivered (a controller that has not scanned since its
+\* last notification - or never - is owed nothing)
 Seen(x, r) == /\ ~x.owes
+              /\ r.t1 - r.t0 >= Slack
               /\ \/ x.tDone >= 0 /\ r.t1 - x.tDone >= Slack
                  \/ r.t1 - Max(x.tChange, r.t0) >= Long
 
